@@ -3,11 +3,11 @@ package main
 // C08: builds are deterministic under every explored schedule.
 
 import (
-	"os/exec"
 	"crypto/sha256"
 	"encoding/hex"
 	"fmt"
 	"os"
+	"os/exec"
 	"path/filepath"
 	"sort"
 	"strings"
@@ -75,12 +75,12 @@ var c08Graphs = []c08Graph{
 		return api.BuildOptions{EntryPoints: []string{"src/*.nomatch1", "missing1/*.js", "src/ok.js", "src/*.nomatch2", "missing2/*.js", "src/ok*.js", "src/*.nomatch3"}, Bundle: true, Format: api.FormatESModule, Outdir: "out", Metafile: true}
 	}},
 	{"G5-inject-and-glob", map[string]string{
-		"entry.js":    "const n = 'a'; console.log(require('./dir/' + n + '.js'), injected1, injected2); import('./dir/' + n + '.js')",
-		"dir/a.js":    "module.exports = 'A'",
-		"dir/b.js":    "module.exports = 'B'",
-		"dir/c.js":    "export default 'C'",
-		"inj1.js":     "export let injected1 = 1",
-		"inj2.js":     "export let injected2 = 2",
+		"entry.js": "const n = 'a'; console.log(require('./dir/' + n + '.js'), injected1, injected2); import('./dir/' + n + '.js')",
+		"dir/a.js": "module.exports = 'A'",
+		"dir/b.js": "module.exports = 'B'",
+		"dir/c.js": "export default 'C'",
+		"inj1.js":  "export let injected1 = 1",
+		"inj2.js":  "export let injected2 = 2",
 	}, func(root string) api.BuildOptions {
 		return api.BuildOptions{EntryPoints: []string{"entry.js"}, Bundle: true, Format: api.FormatCommonJS, Outdir: "out", Metafile: true, Inject: []string{"inj1.js", "inj2.js"}}
 	}},
@@ -443,6 +443,8 @@ func init() {
 				fmt.Println(l)
 			}
 		}
-		c.Eval(1); c.Distinct("a"); c.Distinct("b")
+		c.Eval(1)
+		c.Distinct("a")
+		c.Distinct("b")
 	})
 }
